@@ -348,7 +348,14 @@ def cmdResolve (family mode zones cache script question expect impl : String) : 
                         else match io.soa with
                           | some s => s.rtype == RT_SOA && showName s.name == soaS
                           | none => false
-                      if io.kind != "nonauth" then ["fail:C07:not-resolved:" ++ io.kind]
+                      -- open finding C07-K1: a referral whose glue has TTL 0 cannot be followed (the glue
+                      -- reaches the next iteration only through the cache, which does not store TTL 0)
+                      let glueTtl0 := script.any (fun se => match se.raw with
+                        | some m => m.additional.any (fun rr => rr.ttl == 0 && (rr.rtype == RT_A || rr.rtype == RT_AAAA))
+                        | none => false)
+                      if io.kind != "nonauth" then
+                        (if glueTtl0 && io.result == "err DeadEnd" then ["fail:C07:K1-glue-ttl0-descent-fails"]
+                         else ["fail:C07:not-resolved:" ++ io.kind])
                       else if !sameSet then ["fail:C07:records-differ-from-authoritative-data"]
                       else if !orderOk then ["fail:C07:chain-order"]
                       else if !soaOk then ["fail:C07:soa"]
